@@ -4,97 +4,126 @@
 package message1_1
 
 //@ func message1_1.NewRequest {C12,C10}
+//@   pure
 //@   ensures [undefined-cid] baseCid == cid.Undef ==> err != nil && result0 == nil
 //@   ensures [fields] baseCid != cid.Undef ==> err == nil && result0 != nil && result0.IsRequest() && result0.TransferID() == id &&
 //@       result0.IsRestart() == isRestart && result0.IsNew() == !isRestart && result0.IsPull() == isPull && result0.BaseCid() == baseCid &&
 //@       result0.Selector().0 == selector && !result0.IsPaused() && !result0.IsCancel() && !result0.IsUpdate() && !result0.IsRestartExistingChannelRequest()
 //@   ensures [voucher] baseCid != cid.Undef && voucher != nil ==> result0.VoucherType() == (*voucher).Type && result0.Voucher().0 == (*voucher).Voucher
 //@   ensures [no-voucher] baseCid != cid.Undef && voucher == nil ==> result0.VoucherType() == datatransfer.EmptyTypeIdentifier
-//@   ensures [pure] untouched
 
 //@ func message1_1.RestartExistingChannelRequest {C12,C10}
+//@   pure
 //@   ensures [fields] result != nil && result.IsRequest() && result.IsRestartExistingChannelRequest() && result.RestartChannelId().0 == channelId &&
-//@       result.RestartChannelId().1 == nil && !result.IsNew() && !result.IsRestart() && !result.IsCancel() && !result.IsUpdate() && untouched
+//@       result.RestartChannelId().1 == nil && !result.IsNew() && !result.IsRestart() && !result.IsCancel() && !result.IsUpdate()
 //@ func message1_1.CancelRequest {C12,C09}
+//@   pure
 //@   ensures [fields] result != nil && result.IsRequest() && result.IsCancel() && result.TransferID() == id && !result.IsNew() && !result.IsRestart() &&
-//@       !result.IsUpdate() && !result.IsVoucher() && untouched
+//@       !result.IsUpdate() && !result.IsVoucher()
 //@ func message1_1.UpdateRequest {C12,C11}
+//@   pure
 //@   ensures [fields] result != nil && result.IsRequest() && result.IsUpdate() && result.IsPaused() == isPaused && result.TransferID() == id &&
-//@       !result.IsNew() && !result.IsRestart() && !result.IsCancel() && !result.IsVoucher() && untouched
+//@       !result.IsNew() && !result.IsRestart() && !result.IsCancel() && !result.IsVoucher()
 //@ func message1_1.VoucherRequest {C12,C19}
+//@   pure
 //@   ensures [fields] err == nil && result0 != nil && result0.IsRequest() && result0.IsVoucher() && !result0.IsNew() && !result0.IsRestart() && !result0.IsCancel() &&
-//@       !result0.IsUpdate() && result0.TransferID() == id && untouched
+//@       !result0.IsUpdate() && result0.TransferID() == id
 //@   ensures [voucher] voucher != nil ==> result0.VoucherType() == (*voucher).Type && result0.Voucher().0 == (*voucher).Voucher
 
 //@ func message1_1.ValidationResultResponse {C12,C04}
+//@   pure
 //@   ensures [accept] err == nil && result0 != nil && result0.Accepted() == (validationErr == nil && validationResult.Accepted)
 //@   ensures [fields] !result0.IsRequest() && result0.TransferID() == id && result0.IsPaused() == paused &&
 //@       result0.IsNew() == (messageType == types.NewMessage) && result0.IsRestart() == (messageType == types.RestartMessage) &&
 //@       result0.IsComplete() == (messageType == types.CompleteMessage) && result0.IsUpdate() == (messageType == types.UpdateMessage) &&
-//@       result0.IsCancel() == (messageType == types.CancelMessage) && untouched
+//@       result0.IsCancel() == (messageType == types.CancelMessage)
 //@   ensures [voucher-result] validationResult.VoucherResult != nil ==> result0.VoucherResultType() == (*validationResult.VoucherResult).Type &&
 //@       result0.VoucherResult().0 == (*validationResult.VoucherResult).Voucher
 //@   ensures [no-voucher-result] validationResult.VoucherResult == nil ==> result0.EmptyVoucherResult()
 
 //@ func message1_1.CompleteResponse {C12,C01,C03}
+//@   pure
 //@   ensures [fields] err == nil && result0 != nil && !result0.IsRequest() && result0.IsComplete() && result0.Accepted() == isAccepted &&
 //@       result0.IsPaused() == isPaused && result0.TransferID() == id && !result0.IsNew() && !result0.IsRestart() && !result0.IsCancel() && !result0.IsUpdate() &&
-//@       result0.IsValidationResult() && untouched
+//@       result0.IsValidationResult()
 //@   ensures [voucher-result] voucherResult != nil ==> result0.VoucherResultType() == (*voucherResult).Type && result0.VoucherResult().0 == (*voucherResult).Voucher
 //@ func message1_1.VoucherResultResponse {C12,C19}
+//@   pure
 //@   ensures [fields] err == nil && result0 != nil && !result0.IsRequest() && !result0.IsComplete() && result0.Accepted() == accepted &&
 //@       result0.IsPaused() == isPaused && result0.TransferID() == id && !result0.IsNew() && !result0.IsRestart() && !result0.IsCancel() && !result0.IsUpdate() &&
-//@       result0.IsValidationResult() && untouched
+//@       result0.IsValidationResult()
 //@   ensures [voucher-result] voucherResult != nil ==> result0.VoucherResultType() == (*voucherResult).Type && result0.VoucherResult().0 == (*voucherResult).Voucher
 //@ func message1_1.NewResponse {C12}
+//@   pure
 //@   ensures [fields] err == nil && result0 != nil && !result0.IsRequest() && result0.IsNew() && result0.Accepted() == accepted && result0.IsPaused() == isPaused &&
-//@       result0.TransferID() == id && result0.IsValidationResult() && untouched
+//@       result0.TransferID() == id && result0.IsValidationResult()
 //@ func message1_1.RestartResponse {C12}
+//@   pure
 //@   ensures [fields] err == nil && result0 != nil && !result0.IsRequest() && result0.IsRestart() && result0.Accepted() == accepted && result0.IsPaused() == isPaused &&
-//@       result0.TransferID() == id && result0.IsValidationResult() && untouched
+//@       result0.TransferID() == id && result0.IsValidationResult()
 //@ func message1_1.UpdateResponse {C12,C08,C11}
+//@   pure
 //@   ensures [fields] result != nil && !result.IsRequest() && result.IsUpdate() && result.IsPaused() == isPaused && result.TransferID() == id &&
-//@       !result.IsNew() && !result.IsRestart() && !result.IsCancel() && !result.IsComplete() && !result.IsValidationResult() && untouched
+//@       !result.IsNew() && !result.IsRestart() && !result.IsCancel() && !result.IsComplete() && !result.IsValidationResult()
 //@ func message1_1.CancelResponse {C12,C09}
+//@   pure
 //@   ensures [fields] result != nil && !result.IsRequest() && result.IsCancel() && result.TransferID() == id && !result.IsNew() && !result.IsRestart() &&
-//@       !result.IsUpdate() && !result.IsComplete() && !result.IsValidationResult() && untouched
+//@       !result.IsUpdate() && !result.IsComplete() && !result.IsValidationResult()
 
 // kind predicates: definitions over the published message-type numbering
 //@ func (*message1_1.TransferRequest1_1).IsVoucher {C12}
+//@   pure
 //@   ensures [def] result == (trq.MessageType == 4 || trq.MessageType == 0)
 //@ func (*message1_1.TransferRequest1_1).IsNew {C12}
+//@   pure
 //@   ensures [def] result == (trq.MessageType == 0)
 //@ func (*message1_1.TransferRequest1_1).IsUpdate {C12}
+//@   pure
 //@   ensures [def] result == (trq.MessageType == 1)
 //@ func (*message1_1.TransferRequest1_1).IsCancel {C12}
+//@   pure
 //@   ensures [def] result == (trq.MessageType == 2)
 //@ func (*message1_1.TransferRequest1_1).IsRestart {C12}
+//@   pure
 //@   ensures [def] result == (trq.MessageType == 6)
 //@ func (*message1_1.TransferRequest1_1).IsRestartExistingChannelRequest {C12}
+//@   pure
 //@   ensures [def] result == (trq.MessageType == 7)
 //@ func (*message1_1.TransferRequest1_1).IsRequest {C12}
+//@   pure
 //@   ensures [def] result
 //@ func (*message1_1.TransferRequest1_1).BaseCid {C12}
+//@   pure
 //@   ensures [def] (trq.BaseCidPtr == nil ==> result == cid.Undef) && (trq.BaseCidPtr != nil ==> result == *trq.BaseCidPtr)
 //@ func (*message1_1.TransferRequest1_1).TransferID {C12}
+//@   pure
 //@   ensures [full-range] result == trq.TransferId
 //@ func (*message1_1.TransferResponse1_1).IsRequest {C12}
+//@   pure
 //@   ensures [def] !result
 //@ func (*message1_1.TransferResponse1_1).IsNew {C12}
+//@   pure
 //@   ensures [def] result == (trsp.MessageType == 0)
 //@ func (*message1_1.TransferResponse1_1).IsUpdate {C12}
+//@   pure
 //@   ensures [def] result == (trsp.MessageType == 1)
 //@ func (*message1_1.TransferResponse1_1).IsCancel {C12}
+//@   pure
 //@   ensures [def] result == (trsp.MessageType == 2)
 //@ func (*message1_1.TransferResponse1_1).IsComplete {C12}
+//@   pure
 //@   ensures [def] result == (trsp.MessageType == 3)
 //@ func (*message1_1.TransferResponse1_1).IsRestart {C12}
+//@   pure
 //@   ensures [def] result == (trq.MessageType == 6)
 //@ func (*message1_1.TransferResponse1_1).IsValidationResult {C12}
+//@   pure
 //@   ensures [def] result == (trsp.MessageType == 5 || trsp.MessageType == 0 || trsp.MessageType == 3 || trsp.MessageType == 6)
 //@ func (*message1_1.TransferResponse1_1).Accepted {C12,C04}
+//@   pure
 //@   ensures [def] result == trsp.RequestAccepted
 //@ func (*message1_1.TransferResponse1_1).TransferID {C12}
+//@   pure
 //@   ensures [full-range] result == trsp.TransferId
 
 //@ extern func (*github.com/ipld/go-ipld-prime/node/bindnode/registry.BindnodeRegistry).TypeFromReader
